@@ -44,9 +44,9 @@ ASSUMPTIONS = ["reference model vmon/refmodels/c08_match.py: exact beats (beat 0
                "performed ids compared after the documented n-prefixing; with assume_unfolded=False score ids carry the documented "
                "-1 suffix; alignment entries compared as a multiset (order is not part of the statement)",
                "redundant restatements of the signature in force are not counted as signatures"]
-MIN_HOOKS = {"save_match": {"quick": 300, "thorough": 4000}, "load_matchfile": {"quick": 400, "thorough": 5000},
-             "load_match": {"quick": 400, "thorough": 5000}}
-MIN_NONTRIVIAL = {"quick": 150, "thorough": 2000}
+MIN_HOOKS = {"save_match": {"quick": 800, "thorough": 20000}, "load_matchfile": {"quick": 1800, "thorough": 50000},
+             "load_match": {"quick": 1800, "thorough": 50000}}
+MIN_NONTRIVIAL = {"quick": 500, "thorough": 12000}
 ITEM_TIMEOUT_S = 240
 LOAD_BUDGET_S = 20
 
@@ -263,7 +263,16 @@ def check_text(ctx, S, text):
     other = [f for k in ("sustain", "soft") for f in by[k]]
     # score notes
     A = S.A
-    base = 0 if A["pickup"] else 1
+    # bars are numbered consecutively; where the count starts is not part of the statement
+    base = None
+    for kind in ("match", "deletion"):
+        for f in by[kind]:
+            sid0 = f["sid"][: -len(S.suffix)] if S.suffix and f["sid"].endswith(S.suffix) else f["sid"]
+            e0 = A["notes"].get(sid0)
+            if e0 is not None and A["measure_of"](e0["t"]) is not None and base is None:
+                base = f["bar"] - A["measure_of"](e0["t"])
+    if base is None:
+        base = 0 if A["pickup"] else 1
     for kind in ("match", "deletion"):
         for f in by[kind]:
             sid = f["sid"]
@@ -340,7 +349,7 @@ def check_text(ctx, S, text):
                 ctx.check()
                 if mi is not None and f["bar"] != base + mi:
                     wrong.add(key)
-                    V(f"written-{attr}-measure-number-differs", f"{attr} at beat {f['tb']} stands in measure index {mi} "
+                    V(f"written-{attr}-lines-differ", f"{attr} at beat {f['tb']} stands in measure index {mi} "
                       f"(numbered from {base}), written measure {f['bar']}", S.witness())
     return wrong, T
 
@@ -893,12 +902,12 @@ def setup(ctx):
 # --------------------------------------------------------------------------- driver
 def plan(tier, seed):
     quick = tier == "quick"
-    items = [["gen", i] for i in range(480 if quick else 6000)]
-    items += [["gen-large", i] for i in range(16 if quick else 400)]
-    items += [["unfold", i] for i in range(32 if quick else 400)]
-    items += [["corrupt", i] for i in range(64 if quick else 1000)]
-    items += [["ref", i] for i in range(240 if quick else 4000)]
-    items += [["ref-corrupt", i] for i in range(48 if quick else 800)]
+    items = [["gen", i] for i in range(960 if quick else 24000)]
+    items += [["gen-large", i] for i in range(32 if quick else 1600)]
+    items += [["unfold", i] for i in range(64 if quick else 1600)]
+    items += [["corrupt", i] for i in range(128 if quick else 4000)]
+    items += [["ref", i] for i in range(480 if quick else 16000)]
+    items += [["ref-corrupt", i] for i in range(96 if quick else 3200)]
     items += [["fixture", f] for f in FIXTURES]
     items += [["fixture-corrupt", f, i] for f in FIXTURES[:2] for i in range(2 if quick else 12)]
     return items
@@ -923,8 +932,15 @@ def run_roundtrip(ctx, case, unfolded=True):
     try:
         out = os.path.join(d, "x.match")
         al = copy.deepcopy(case.alignment)
+        import partitura.score as SC
+        from partitura.performance import Performance
+        form = case.arg_form
+        sdata = {"part": case.part, "score": SC.Score([case.part], id="s") if form[0] == "score" else None,
+                 "list": [case.part]}[form[0]]
+        pdata = {"ppart": pp, "performance": Performance(pp, id="p") if form[1] == "performance" else None, "list": [pp]}[form[1]]
+        ctx.classes[f"arguments-{form[0]}-{form[1]}"] += 1
         try:
-            ctx.call(partitura.save_match, al, pp, case.part, out, mpq=case.perf["mpq"], ppq=case.perf["ppq"],
+            ctx.call(partitura.save_match, al, pdata, sdata, out, mpq=case.perf["mpq"], ppq=case.perf["ppq"],
                      assume_unfolded=unfolded)
         except core.PartituraRaised as pr:
             n_match = sum(1 for a in case.alignment if a["label"] == "match")
@@ -975,10 +991,14 @@ def run_corrupt(ctx, rng, text, tag):
         create = rng.random() < 0.7
         if not any(c[0] in ("match", "deletion") for c in kept):
             create = False                         # no score-note line survives the documented drops: there is no score to build
-        try:
-            ctx.call(partitura.load_match, fn, create_score=create)
-        except core.PartituraRaised as pr:
-            ctx.raised(pr, extra={"injected": done, "create_score": create, "file": new.splitlines()[:80]})
+        status, _ = call_with_budget(ctx, LOAD_BUDGET_S, partitura.load_match, fn, create_score=create)
+        if status == "hang":
+            V("load-does-not-terminate", f"load_match(create_score={create}) of a file with duplicate ids did not return within "
+              f"{LOAD_BUDGET_S} s", {"injected": done, "file": new.splitlines()[:80]})
+        elif status == "raised":
+            last = ctx.violations[-1] if ctx.violations else None
+            if last is not None and last["key"].startswith("raise:") and last["witness"].get("detail") is None:
+                last["witness"]["detail"] = {"injected": done, "create_score": create, "file": new.splitlines()[:80]}
         resolved = sum(dropped.values()) + info["textual_duplicates"]
         ctx.case(["corrupt", core.digest(new)], resolved > 0 and bool(done), cls=f"corrupt-{tag}",
                  sample={"injected": done, "documented_drops": sum(dropped.values()), "textual_duplicates": info["textual_duplicates"]})
@@ -1008,12 +1028,15 @@ def run_item(ctx, item):
     elif kind in ("gen", "gen-large", "unfold", "corrupt"):
         rng = ctx.rng(kind, item[1])
         size = "large" if kind == "gen-large" else rng.choice(["tiny", "small", "small", "small"])
-        case = W.make_case(rng, size=size, klass="complete" if kind in ("unfold", "corrupt") else None)
+        case = W.make_case(rng, size=size, klass="complete" if kind in ("unfold", "corrupt") else None,
+                           id_style="default" if kind == "unfold" else None)
         if not case.alignment:
             ctx.extra["skipped_score_without_notes"] += 1
             return
         if rng.random() < 0.2 and add_midbar_key(rng, case.part):
             ctx.extra["cases_with_midbar_key"] += 1
+        case.arg_form = (rng.choices(["part", "score", "list"], [0.6, 0.2, 0.2])[0],
+                         rng.choices(["ppart", "performance", "list"], [0.6, 0.2, 0.2])[0])
         text = run_roundtrip(ctx, case, unfolded=(kind != "unfold"))
         if kind == "corrupt" and text is not None:
             for j in range(3):
